@@ -39,6 +39,7 @@ class G:
         self.params_in_scope: list[str] = []
         self.cur_routine = None  # id of the routine whose body is being generated (None: macro bodies)
         self.n_side = 0
+        self.side_boost = False
         self.side_entries: list[tuple[str, int]] = []
 
     # -- primitives
@@ -227,7 +228,7 @@ class G:
             if self.budget <= 0:
                 break
             out.append(self.stmt(depth, in_loop, in_case))
-        if self.use_labels and self.cur_routine is not None and self.b(1, 12):
+        if self.use_labels and self.cur_routine is not None and self.b(1, 3 if self.side_boost else 12):
             out += self.side_entry(in_loop, in_case)
         return out
 
@@ -465,9 +466,38 @@ class G:
             body.append({"k": "ctl", "v": self.pick(["return", "end", "hold"])})
         elif k == 3:
             body.append(self.op())
+        elif self.b(1, 2):
+            # anchor shape: the routine ends in compound statements that end in compound statements (their end
+            # labels pile up at the end of the routine), no terminator
+            self.side_boost = True
+            body.append(self.tail_nest(0))
+            self.side_boost = False
         if not body:
             body.append(self.op())
         return body
+
+    def tail_nest(self, depth):
+        k = self.i(0, 5)
+        if k < 3:
+            s = self.switch_stmt(depth, False, False)
+            if not s["cases"]:
+                s["cases"] = [{"default": True, "head": None, "body": [self.op()]}]
+            if self.b(2, 3) and not any(c["default"] for c in s["cases"]):
+                s["cases"].append({"default": True, "head": None, "body": [self.op()]})
+            last = s["cases"][-1]["body"]
+        elif k < 5:
+            s = self.if_stmt(depth, False, False)
+            if s["else"] is None and self.b():
+                s["else"] = [self.op()]
+            last = s["else"] if s["else"] is not None else (s["elifs"][-1]["body"] if s["elifs"] else s["body"])
+        else:
+            s = {"k": "forever", "body": self.loop_body(depth)} if self.b() else {"k": "while", "not": self.b(), "cond": self.cond(), "body": self.loop_body(depth)}
+            last = s["body"]
+        if depth < 2 and self.b(2, 3):
+            while last and last[-1]["k"] in ("ctl", "jump"):
+                last.pop()
+            last.append(self.tail_nest(depth + 1))
+        return s
 
     def routines(self):
         coro = self.b(1, 6)
